@@ -274,6 +274,8 @@ def gen_table(rng):
     into_scope(t, rng)
     if rng.random() < 0.12 and t["mk"] != "grid":
         t["w"] = minw_py(t) + rng.choice([0, 0, 1, 2, 3, 5, 8, 13, 30])
+    if rng.random() < 0.15 and t["mk"] != "grid":
+        t["prior"] = rand_prior(t, rng)       # the same object was rendered before, in another configuration
     return t
 
 
@@ -726,6 +728,44 @@ def _box_chars():
     return s
 
 
+PRIOR_ATTRS = dict(edge="show_edge", sh="show_header", sf="show_footer", sl="show_lines", ex="expand", pe="pad_edge", cp="collapse_padding",
+                   lead="leading", box="box")
+
+
+def prior_render(t, table, console, options):
+    """t["prior"] = {"set": {recipe key: other value}, "dW": n}: the SAME Table object has been rendered before, when some of its
+    public attributes still had other values (and at another width): that earlier render is thrown away, the attributes are
+    set to the recipe's values, and the render that follows is the one judged - a table shows what it is NOW."""
+    prior = t.get("prior")
+    if not prior:
+        return
+    from rich import box as B
+    saved = {}
+    for k, v in prior["set"].items():
+        attr = PRIOR_ATTRS[k]
+        saved[attr] = getattr(table, attr)
+        setattr(table, attr, (getattr(B, v) if v else None) if k == "box" else v)
+    try:
+        list(console.render(table, options.update(width=max(1, options.max_width + prior.get("dW", 0)))))
+    except Exception:
+        pass                                   # the earlier configuration is not the one under judgement
+    for attr, v in saved.items():
+        setattr(table, attr, v)
+
+
+def rand_prior(t, rng):
+    keys = rng.sample(sorted(PRIOR_ATTRS), rng.choice([1, 1, 2, 3]))
+    other = {}
+    for k in keys:
+        if k == "box":
+            other[k] = None if t["box"] else "SQUARE"
+        elif k == "lead":
+            other[k] = 0 if t["lead"] else 1
+        else:
+            other[k] = not t[k]
+    return dict(set=other, dW=rng.choice([0, 0, 0, 1, -1, 7]))
+
+
 def project(t, W):
     """build the real table, render it at W, return the record TLC judges"""
     from rich.cells import cell_len, get_character_cell_size
@@ -748,6 +788,7 @@ def project(t, W):
     try:
         table = build(t)
         console, options = make_console(t, W)
+        prior_render(t, table, console, options)
         segments = list(console.render(table, options))
     except Exception as e:  # a crash inside Rich is data for TLC
         rec["exc"] = type(e).__name__
@@ -973,6 +1014,8 @@ def features(t):
                     f.add(k)
             else:
                 f.add(k if k != "box" else ("box=None" if t["box"] is None else "box"))
+    if t.get("prior"):
+        f.add("rendered-before:" + "+".join(sorted(t["prior"]["set"])))
     for c in t["cols"]:
         for k, d in COL_DEFAULTS.items():
             if c.get(k, d) != d:
